@@ -301,9 +301,10 @@ class SX:
             for x in items:
                 if not any(SymDict._eq(x, y) for y in out):
                     out.append(x)
-            c = cur()
-            c.fresh += 1
-            return SymSet(out, f'set{c.fresh}')
+            # one interpreter = one hash seed: equal sets iterate in the same order wherever they are built; the
+            # harness names the interpreter (SYMBOLIC_SET_ORDER[0]) so that two chains can stand for two processes
+            key = '_'.join(sorted(builtins.repr(x) if not isinstance(x, Sym) else 'sym' for x in out))
+            return SymSet(out, f'set{SX.SYMBOLIC_SET_ORDER[0]}_{abs(builtins.hash(key)) % 100000}')
         return set(items)
 
     # ---- f-strings
@@ -546,14 +547,23 @@ class SymSet:
 
     def ordered(self):
         c = cur()
-        rest = list(self.items)
-        out = []
-        k = 0
-        while len(rest) > 1:
-            i = c.choice(f'{self.tag}_perm{k}_{len(rest)}', len(rest))
-            out.append(rest.pop(i))
-            k += 1
-        return out + rest
+        memo = c.__dict__.setdefault('set_orders', {})
+        if memo.get('__path__') != c.paths:
+            memo.clear()
+            memo['__path__'] = c.paths
+        if self.tag in memo:
+            idx = memo[self.tag]
+        else:
+            rest = list(range(len(self.items)))
+            idx = []
+            k = 0
+            while len(rest) > 1:
+                i = c.choice(f'{self.tag}_perm{k}_{len(rest)}', len(rest))
+                idx.append(rest.pop(i))
+                k += 1
+            idx += rest
+            memo[self.tag] = idx
+        return [self.items[i] for i in idx]
 
     def __iter__(self):
         return iter(self.ordered())
